@@ -187,7 +187,11 @@ def main():
                     msgs = [(r.get("message") or "") + "\n" + (r.get("traceback") or "") for r in rs if r["verdict"] == "refuted"]
                     harness_errors.append("%s: refuted without recorded counterexample: %s" % (o["name"], msgs[0][:1500] if msgs else ""))
                 reproduced = 0
+                per_fp = {}
                 for f in fails:
+                    per_fp[f.get("fingerprint")] = per_fp.get(f.get("fingerprint"), 0) + 1
+                    if per_fp[f.get("fingerprint")] > 3:
+                        continue
                     rp = {"property": pid, "obligation": o["name"], "case": f["case"], "detail": f.get("detail"),
                           "fingerprint": f.get("fingerprint")}
                     h = hashlib.sha1(json.dumps(rp, sort_keys=True, default=str).encode()).hexdigest()[:12]
